@@ -5,12 +5,21 @@
     fine graph as its coarse graph, dictionary i is used at step i with the all-atom flag raised
     only at the last level, stepping past the end raises IndexError.  The per-step mapping and
     bonding guarantees are C02/C03 (stated for one arbitrary step, hence for every level).
-    NOT a theorem: [compose_flat] (the multi-level string resolves to a molecule isomorphic to
-    the flattened two-level string) — decided per run by the generated search over hierarchical
-    groupings (tools/props/c06.py); hence C06 is claimed as partial. *)
+    COMPOSITION, at the level of the bonding step and for two levels (theories/Compose/ComposeFlat.v,
+    cited below as [C06_compose_flat_bonding_level]): for a molecule cut into parts and the parts grouped,
+    the layered resolution (base over groups, coarse fragments over part-nodes with uniquely labelled
+    descriptors whose order is the number of atom-level cut bonds, then atomistic templates) and the flat
+    resolution (base over parts) both return and give the same fine skeleton — same edges, orders and
+    atom attributes through the explicit renumbering offset-in-base-order+index |-> offset-in-group-
+    order+index; after the coarse step the fine graph read as a base graph IS a base graph of the
+    re-ordered cut ([C06_layered_base_is_flat_base]).  Legacy matching, no `!`, no E/Z marks.
+    Not threaded through (decided per run by the generated search, tools/props/c06.py): sort / annotate /
+    naming between the layers, three and more intermediate levels, hydrogens of the layered result,
+    shared nodes; hence C06 stays claimed as partial. *)
 From Coq Require Import String.
 From Coq Require Import List Ascii ZArith Bool.
 From CGV Require Import Base.PyBase Resolve.Drivers Resolve.DriversProofs Resolve.DriversCheck.
+From CGV Require Compose.Statements.
 Import ListNotations.
 
 Section C06.
@@ -51,7 +60,14 @@ Example C06_nonvacuous :
     /\ molecule st = [(0, false); (1, false); (2, true)].
 Proof. eexists. eexists. split; [vm_compute; reflexivity|reflexivity]. Qed.
 
+(** composition clause (statements in theories/Compose/ComposeFlat.v: [compose_flat], [layered_base]) *)
+Definition C06_compose_flat_bonding_level := CGV.Compose.Statements.C06_compose_flat.
+Definition C06_layered_base_is_flat_base := CGV.Compose.Statements.C06_layered_base.
+Definition C06_regrouped_cut_wf := CGV.Compose.Statements.C06_perm_cut_wf.
+
 Print Assumptions C06_manual_is_prefix_of_iter.
+Print Assumptions C06_compose_flat_bonding_level.
+Print Assumptions C06_layered_base_is_flat_base.
 Print Assumptions C06_all_is_last_of_iter.
 Print Assumptions C06_chain.
 Print Assumptions C06_past_end.
